@@ -620,6 +620,10 @@ class TransportSim:
         cfg["server_idle"] = it[c.choose(len(it))]
         cfg["initial_rtt"] = (0.1, 0.05, 0.333)[c.choose(3)]
         cfg["retry"] = bool(p.get("retry_p")) and c.chance(p["retry_p"])
+        cfg["retry_pad"] = 0
+        if cfg["retry"] and p.get("retry_token_pads"):
+            # a server may issue a token of any length; one that leaves no room in the client's Initial is hostile
+            cfg["retry_pad"] = p["retry_token_pads"][c.choose(len(p["retry_token_pads"]))]
         if cfg["retry"] and not p.get("rebind_with_retry"):
             # a Retry token is bound to the client's address: an address change between Retry and its
             # use makes the handshake impossible by design (the client accepts only one Retry), so
@@ -789,6 +793,8 @@ class TransportSim:
                 rscid = bootstrap.DET.urandom(8)
                 # stateless, like a real server: the token itself carries ODCID and Retry SCID
                 tok = want + b":" + dcid.hex().encode() + b":" + rscid.hex().encode()
+                if self.cfg.get("retry_pad"):
+                    tok += b":" + b"p" * self.cfg["retry_pad"]
                 pkt = wh.build_retry(version, scid, rscid, tok, dcid)
                 self.net.fired["retry"] += 1
                 self.net.send(ep, pkt, dgram.src)
